@@ -121,18 +121,22 @@ Lemma exec_ret_probe s k : snd (exec s (OProbe k)) =
   if existsb (fun c => (num c =? k) && (phase c =? 1)) s then 1 else 0.
 Proof. reflexivity. Qed.
 
+Lemma disc_ok_nil s id oc : disc_ok s id oc [] = true.
+Proof. unfold disc_ok. apply forallb_forall. intros c _. now destruct (_ && _). Qed.
+
 Lemma monitor_from_model l : forall s, Inv8 s -> known_from s l = false ->
-  monitor_from s l (map snd (go s l)) = true.
+  monitor_from s l (map (fun p => (snd p, @nil N)) (go s l)) = true.
 Proof.
   induction l as [|o l IH]; intros s I Hk; [reflexivity|].
   cbn [known_from] in Hk. apply orb_false_iff in Hk as [Hk1 Hk2].
   assert (Hs : step_known s o = false) by (destruct o; exact Hk1 || reflexivity).
-  cbn [go]. destruct (exec s o) as [s' ret] eqn:E. cbn [map snd monitor_from].
+  cbn [go]. destruct (exec s o) as [s' ret] eqn:E. cbn [map snd fst monitor_from].
   assert (Es : fst (exec s o) = s') by now rewrite E.
   rewrite Es in *. rewrite IH; [|rewrite <- Es; now apply exec_inv|assumption].
   rewrite andb_true_r. destruct o; try reflexivity.
-  assert (ret = snd (exec s (OProbe k))) by now rewrite E. subst ret.
-  rewrite exec_ret_probe. now apply probe_ok_model.
+  - apply disc_ok_nil.
+  - assert (ret = snd (exec s (OProbe k))) by now rewrite E. subst ret.
+    rewrite exec_ret_probe. now apply probe_ok_model.
 Qed.
 
 Lemma model_monitor i : known i = 0 -> monitor i (model i) = true.
@@ -145,7 +149,7 @@ Qed.
    accept is parked (disconnect returns false), then registered and served *)
 Definition witness : input := [OAdmit 0; ODisc 0 (Some 0); ORelease 0; OProbe 0].
 Lemma known_witness : known witness = 1 /\ monitor witness (model witness) = false /\
-                      model witness = Ok [1; 1; 1; 1].
+                      model witness = Ok [(1, []); (1, []); (1, []); (1, [])].
 Proof. repeat split. Qed.
 
 (* readable form of the monitor on one probe *)
@@ -161,6 +165,23 @@ Proof.
   - intros H c Hin. destruct (num c =? k) eqn:Ek; [|reflexivity]. apply N.eqb_eq in Ek.
     destruct (H c Hin Ek) as [h1 h2]. destruct (revoked c); [apply N.eqb_eq; auto|].
     destruct (phase c =? 1) eqn:Ep; [|reflexivity]. apply N.eqb_eq in Ep. apply N.eqb_eq; auto.
+Qed.
+
+(* readable form of the monitor on one disconnect request *)
+Lemma disc_ok_spec s id o still :
+  disc_ok s id o still = true <->
+  forall c, In c s -> matches c id o = true -> phase c = 1 -> ~ In (num c) still.
+Proof.
+  unfold disc_ok. rewrite forallb_forall. split.
+  - intros H c Hin Hm Hp Hs. specialize (H c Hin). apply N.eqb_eq in Hp. rewrite Hm, Hp in H.
+    cbn [andb] in H. apply negb_true_iff in H.
+    assert (existsb (N.eqb (num c)) still = true); [|congruence].
+    apply existsb_exists. exists (num c). split; [assumption|apply N.eqb_refl].
+  - intros H c Hin. destruct (matches c id o && (phase c =? 1)) eqn:E; [|reflexivity].
+    apply andb_prop in E as [Em Ep]. apply N.eqb_eq in Ep. apply negb_true_iff.
+    destruct (existsb _ still) eqn:Ex; [|reflexivity]. exfalso.
+    apply existsb_exists in Ex as (x & Hx & Exx). apply N.eqb_eq in Exx. subst x.
+    exact (H c Hin Em Ep Hx).
 Qed.
 End A.
 
